@@ -918,5 +918,13 @@ pub fn fixed_cases() -> Vec<(&'static str, Vec<Vec<Step>>, Vec<Act>)> {
     ("nested require finds a scheduled task under a later dependency",
      vec![vec![Read(0, 1), IfOdd(vec![Require(1, 0)], vec![])], vec![Require(2, 0), Require(3, 0)], vec![], vec![Require(4, 0)], vec![Read(1, 0)]],
      vec![Act::Set(0, 0), Act::Set(1, 0), Act::TopDown(3), Act::TopDown(1), Act::TopDown(0), Act::Set(1, 1), Act::Set(0, 1), Act::BottomUp, Act::TopDown(0)]),
+    // bottom-up: the generator T0 is re-executed and rewrites resource 2; the check of T1's read of resource 2 (a checker that fails
+    // on demand) fails at exactly that point, i.e. not for a reported resource but for one written during the build
+    ("a check that fails for a reader of a resource written during the bottom-up build",
+     vec![vec![Read(0, 0), Write(2, 1)], vec![Require(0, 1), Read(2, 3)]],
+     vec![Act::Set(0, 0), Act::TopDown(1), Act::Set(0, 1), Act::BottomUpFlaky, Act::TopDown(1)]),
+    ("a check that fails for a task validated two levels below the required root",
+     vec![vec![Require(1, 0)], vec![Read(0, 3)]],
+     vec![Act::Set(0, 0), Act::TopDown(0), Act::Set(0, 1), Act::TopDownFlaky(0), Act::TopDown(0)]),
   ]
 }
